@@ -93,6 +93,12 @@ def check_covariance(seed):
         np.linalg.cholesky(C)
     except np.linalg.LinAlgError:
         return None
+    if seed % 3 == 0:
+        # a market's volatility (or drift) is switched off and on again later (user events do this): the configured correlations are parameters of their own and stay
+        m0 = rng.randrange(n)
+        f.change_volatility(m0, 0.0, 0)
+        f.change_drift(m0, drifts[m0], 0)
+        f.change_volatility(m0, vols[m0], 0)
     stub = StubNp(seed); f._np_prng = stub
     ids = list(range(n)); length = 5
     out = f._generate_log_return(generate_target_ids=ids, length=length)
